@@ -15,7 +15,6 @@ import TrVerif.Props.C07Fwd2
 import TrVerif.Props.C12Shift
 import TrVerif.Props.C12MapStatus
 import TrVerif.Props.C12
-import TrVerif.Props.C16
 namespace Tr
 
 def nvDs : Dataset :=
